@@ -39,6 +39,36 @@ func checkCapacityUnmodified(c *Ctx, p *Prog, rule string) {
 	}
 }
 
+// checkInputsForwarded (C02/X16): the simplified disciplines hand the configured inputs to the
+// inner discipline as given: every store to an `Inputs` options field is a copy of the caller's
+// `Inputs` (a filtered copy - "skip nil channels and priority 0" - leaves a configured input
+// unread: Handle is never called for what is written to it).
+func checkInputsForwarded(c *Ctx, p *Prog, rule string) {
+	n := 0
+	for _, fn := range p.Funcs() {
+		if !p.Live()[fn] {
+			continue
+		}
+		for _, b := range fn.Blocks {
+			for _, in := range b.Instrs {
+				st, ok := fieldStore(in, "Inputs")
+				if !ok {
+					continue
+				}
+				n++
+				v := deepStrip(p.Sym(st.Val))
+				_, path, okp := v.FieldPath()
+				okCopy := okp && path[len(path)-1] == "Inputs"
+				c.R.Check(okCopy, rule, fmt.Sprintf("%s#inputs.%d", p.FnKey(fn), n), p.InstrPos(in), "Inputs handed on as given",
+					"the inner discipline is given "+v.String()+" instead of the inputs the caller configured: an input that is left out is never read, and Handle is never invoked for what is written to it")
+			}
+		}
+	}
+	if n == 0 {
+		c.R.Pass(rule, p.Name+":inputs", "-", "Inputs is never written by product code")
+	}
+}
+
 // checkSpendLoopExits (C05/P4, C06/N9): the pass over one input (the loop around the input receive)
 // ends only when the allotment of that priority is spent, the input has nothing buffered (default
 // clause) / did not deliver for two ticks (ticker clause), is closed, or a stop clause fired. Any
@@ -809,6 +839,98 @@ func checkErrorTests(c *Ctx, p *Prog, rule string, fns []*ssa.Function) int {
 							c.R.Fail(rule, fmt.Sprintf("%s#error-dropped.%d", p.FnKey(fn), k), p.InstrPos(ret), "the function reports success (nil) on the edge where "+p.Sym(bo.X).String()+" was found non-nil: the fault is swallowed")
 						}
 					}
+				}
+			}
+		}
+		// ... and no success is reported before the error of a product call was looked at: from the
+		// call no return is reachable that neither hands that error on nor lies behind its nil test
+		// (switch { case nothingToDo: return nil; case err != nil: return err } swallows the fault
+		// of the round in which there was nothing to do)
+		for _, b := range fn.Blocks {
+			for _, in := range b.Instrs {
+				call, isCall := in.(*ssa.Call)
+				if !isCall {
+					continue
+				}
+				cal := p.Callee(call)
+				if cal == nil || !p.IsProduct(cal) {
+					continue
+				}
+				var ev ssa.Value
+				res := cal.Signature.Results()
+				switch {
+				case res.Len() == 1 && isErrType(res.At(0).Type()):
+					ev = call
+				case res.Len() > 1 && isErrType(res.At(res.Len()-1).Type()):
+					for _, ref := range *call.Referrers() {
+						if ex, isEx := ref.(*ssa.Extract); isEx && ex.Index == res.Len()-1 {
+							ev = ex
+						}
+					}
+				}
+				if ev == nil {
+					continue
+				}
+				tested := map[*ssa.BasicBlock]bool{}
+				anyTest := false
+				for _, ref := range *ev.Referrers() {
+					if bo, isB := ref.(*ssa.BinOp); isB && (bo.Op == token.NEQ || bo.Op == token.EQL) && (isNilConst(bo.Y) || isNilConst(bo.X)) {
+						for _, r2 := range *bo.Referrers() {
+							if iff, isIf := r2.(*ssa.If); isIf {
+								tested[iff.Block()] = true
+								anyTest = true
+							}
+							if un, isUn := r2.(*ssa.UnOp); isUn {
+								for _, r3 := range *un.Referrers() {
+									if iff, isIf := r3.(*ssa.If); isIf {
+										tested[iff.Block()] = true
+										anyTest = true
+									}
+								}
+							}
+						}
+					}
+				}
+				if !anyTest {
+					continue // handed on or ignored as a whole: other rules (D5, D10 error-dropped)
+				}
+				seen := map[*ssa.BasicBlock]bool{}
+				var stack []*ssa.BasicBlock
+				if tested[b] {
+					continue
+				}
+				stack = append(stack, b.Succs...)
+				// (a return in the call's own block comes after the call)
+				if ret, isRet := b.Instrs[len(b.Instrs)-1].(*ssa.Return); isRet {
+					_ = ret
+				}
+				for len(stack) > 0 {
+					x := stack[len(stack)-1]
+					stack = stack[:len(stack)-1]
+					if seen[x] || x == fn.Recover {
+						continue
+					}
+					seen[x] = true
+					if x == b {
+						continue // back at the call: the next activation of the call has its own error
+					}
+					if ret, isRet := x.Instrs[len(x.Instrs)-1].(*ssa.Return); isRet {
+						handsOn := false
+						for _, rv := range returnedValues(ret) {
+							if rv == ev {
+								handsOn = true
+							}
+						}
+						if !handsOn {
+							k++
+							c.R.Fail(rule, fmt.Sprintf("%s#error-unseen.%d", p.FnKey(fn), k), p.InstrPos(ret), "the function returns at "+p.InstrPos(ret)+" without having looked at the error of "+p.calleeName(call.Common())+" (called at "+p.InstrPos(call)+", tested only later): a fault of that call is swallowed on this path")
+						}
+						continue
+					}
+					if tested[x] {
+						continue
+					}
+					stack = append(stack, x.Succs...)
 				}
 			}
 		}
